@@ -3,6 +3,10 @@
 checks catch them: tools/seed_collect.py <PID> <dir> [extra checks...]"""
 import glob, json, os, shutil, subprocess, sys
 pid, d = sys.argv[1], sys.argv[2]
+# optional numbering offset "--base N": m1 of this batch is filed as m<N+1> (later rounds never overwrite earlier ones)
+base_k = 0
+if "--base" in sys.argv:
+    j = sys.argv.index("--base"); base_k = int(sys.argv[j + 1]); del sys.argv[j:j + 2]
 checks = [pid] + sys.argv[3:]
 WT = "/tmp/seedwt-" + pid
 subprocess.run("git -C /repo worktree remove --force %s 2>/dev/null; git -C /repo worktree add -q --detach %s HEAD" % (WT, WT), shell=True, check=True)
@@ -26,7 +30,7 @@ try:
             r = subprocess.run(["./check", c, "--tier", "quick"], cwd="/verif", env=dict(os.environ, VERIF_REPO=WT), capture_output=True, text=True)
             viol = [l.strip() for l in r.stdout.splitlines() if l.startswith("VIOLATION")]
             verdicts[c] = {"exit": r.returncode, "violation_lines": viol[:6]}
-        out = os.path.join("/verif/seeded", "%s-%s" % (pid, k))
+        out = os.path.join("/verif/seeded", "%s-m%d" % (pid, base_k + int(k[1:])))
         os.makedirs(out, exist_ok=True)
         shutil.copy(diff, os.path.join(out, "patch.diff"))
         shutil.copy(demo, os.path.join(out, "demo.py"))
